@@ -344,9 +344,14 @@ def price_layer(draw):
         labels.append('ptc_heat')
     if draw(st.integers(0, 3)) == 0:
         blk.append(['Fixed Internal Rate', fmt(draw(nice_floats(0.1, 30)))])
-    if draw(st.integers(0, 3)) == 0:
+    k = draw(st.integers(0, 7))
+    if k in (0, 1):
         blk.append(['Discount Initial Year Cashflow', 'True'])
         labels.append('npv_excel_convention')
+    elif k == 2:
+        # the default, stated explicitly (provided, but not changed)
+        blk.append(['Discount Initial Year Cashflow', draw(st.sampled_from(['False', 'false']))])
+        labels.append('npv_convention_default_stated')
     return labels, blk
 
 
